@@ -9,6 +9,7 @@ CONSTANTS
   MaxForce = 0
   MaxStops = 1
   MaxKills = 0
+  MaxPauses = 0
 INVARIANT OneInstance
 INVARIANT NoRespawnAfterOwnExit
 INVARIANT CancelNotBeforeBackoff
